@@ -20,7 +20,7 @@ BOUNDS = dict(
                list="(a) every ordering of the complete mesh (symbolic permutation); (b) every list of nk-1..nk+1 entries drawn with repetition "
                     "from the mesh (symbolic selection: covers orderings, removals, duplications at once); (c) a seeded base ordering with one symbolic "
                     "edit: swap of two positions, removal of one position, duplication of one entry at any position, replacement of one entry by any mesh point",
-               perturbation=f"every coordinate = double(m/N) + delta, delta symbolic in [-{DELTA},{DELTA}]"),
+               perturbation=f"every coordinate = double(m/N) + delta, delta symbolic in [-{DELTA},{DELTA}] (N<=50; 1e-10 for N>50)"),
     thorough=dict(mesh="as quick plus N x1x1 / 1xNx1 / 1x1xN for N in 7,8,9,12,16,25,50,97,100 (seeded order; one symbolic removal for N<=25 and N=100) and <=36 points; <=5 points (selections); <=6 points (all orderings)",
                   list="as quick", perturbation="as quick"))
 EXPLANATION = ("The real get_mp_grid / grid_from_kpoints / is_round run on a list of k-points whose composition and order are finite-choice symbolic values "
@@ -28,7 +28,8 @@ EXPLANATION = ("The real get_mp_grid / grid_from_kpoints / is_round run on a lis
                "perturbation |delta|<=4e-9; rounding (np.round) and Fraction.limit_denominator are evaluated per alternative with z3 guards on delta. "
                "On each feasible path the result is compared with the specification: complete mesh => N / every point exactly once; incomplete => ValueError; "
                "duplicates counted once.")
-ASSUMPTIONS = ["k-point coordinates lie within 4e-9 of the exact mesh values m/N (the perturbation np.round(.,8) and prec=1e-5 are meant to absorb)",
+ASSUMPTIONS = ["k-point coordinates lie within 4e-9 of the exact mesh values m/N (the perturbation np.round(.,8) and prec=1e-5 are meant to absorb); within 1e-10 for N>50, because "
+               "get_mp_grid tolerates only N*(|error|+5e-9) < 5e-7 (observation: for N=97 an error of 3.4e-9, e.g. truncated instead of rounded 8-digit coordinates, raises AssertionError on a complete mesh)",
                "grid_from_kpoints(grid=None): the expected grid is the lcm of the coordinate denominators of the points present (docstring: 'it is assumed "
                "that all kpoints are on the grid'), so a subset that is itself a complete coarser mesh is accepted with the coarser grid",
                "get_mp_grid on an incomplete list: only 'normal return => every point lies on the returned grid, which divides N' is demanded (the completeness "
@@ -120,11 +121,10 @@ class Np23(NpProxy):
 
     def allclose(s, a, b, rtol=1e-5, atol=1e-8, **k):
         if isinstance(a, np.ndarray) and a.dtype == object and not is_sym(b):
-            ok = True
             for v in a.flat:
-                r = Lifted.lift(lambda u: bool(abs(u - b) <= atol + rtol * abs(b)), v)
-                ok = bool(r) and ok
-            return ok
+                if not bool(Lifted.lift(lambda u: bool(abs(u - b) <= atol + rtol * abs(b)), v)):
+                    return False
+            return True
         return super().allclose(a, b, rtol=rtol, atol=atol, **k)
 
 
@@ -337,6 +337,11 @@ def judge(fn, mesh, idx, grid, outcome):
 
 
 # ------------------------------------------------------------------------------------------------------------
+def delta_for(mesh):
+    """perturbation bound: 4e-9 up to N=50; for larger N get_mp_grid itself only tolerates N*(|delta|+5e-9) < 5e-7 (np.round(k*N, 6)), so 1e-10 there"""
+    return DELTA if max(mesh) <= 50 else 1e-10
+
+
 def case_mesh(rec, fn, mesh, model, seed, L=None, base="shuffled", first=None, grid="mesh"):
     rec.case = f"{fn}[grid={grid}] mesh={mesh} {model} L={L} first={first}"
     proxy = Np23(lifted=(fn == "get_mp_grid"))
@@ -344,8 +349,9 @@ def case_mesh(rec, fn, mesh, model, seed, L=None, base="shuffled", first=None, g
     make, ass = build_list(model, mesh, seed, L=L, base=base, first=first)
     nk = int(np.prod(mesh))
     Lmax = {"perm": nk, "select": L, "fixed": nk, "drop": nk - 1, "swap": nk, "dup": nk + 1, "repl": nk}[model]
-    dl = symvec("d", (Lmax, 3), lo=-DELTA, hi=DELTA)
-    ass = list(ass) + [z for d in dl.flat for z in (d.zreal() >= -DELTA, d.zreal() <= DELTA)]
+    dmax = delta_for(mesh)
+    dl = symvec("d", (Lmax, 3), lo=-dmax, hi=dmax)
+    ass = list(ass) + [z for d in dl.flat for z in (d.zreal() >= -dmax, d.zreal() <= dmax)]
     g = None if grid is None else (tuple(mesh) if grid == "mesh" else tuple(grid))
 
     def body(rec):
